@@ -398,9 +398,9 @@ class Gen:
         if f["fin"]:
             cands += ["findrop", "bufthr"]
         if f["weak"]:
-            cands += ["metagone", "metagone"]
+            cands += ["metagone", "metagone", "weakpoke"]
         if f["weak"] and f["fin"]:
-            cands += ["selfres", "selfres", "downroot"]
+            cands += ["selfres", "selfres", "downroot", "helperfin"]
         t = r.choice(cands)
         if f["auto"] and t != "bufthr" and r.random() < 0.7:
             ops.append("cfg auto 0")
@@ -492,6 +492,29 @@ class Gen:
             if r.random() < 0.4:
                 ops += ["collect"]
             ops += ["drop h0"] + ["collect"] * r.randrange(2, 4)
+        elif t == "weakpoke":
+            # a garbage ring whose only buffered member is then only touched through `Weak`s (clone, failed upgrade, counts, drop):
+            # nothing a `Weak` does may take it out of the buffer, the next collection reclaims the whole ring
+            ops += ["new h0 %s 0 0 0" % sp, "new h1 %s 0 0 0" % sp, "setf h1 f0 h0", "movef h0 f0 h1", "down h0 w0"]
+            if r.random() < 0.4:
+                ops += ["collect"]
+            ops += ["drop h0"]
+            for _ in range(r.randrange(1, 5)):
+                ops.append(r.choice(["wclone w0 w2", "wclone w0 w3", "wdrop w2", "wdrop w3", "wclone w2 w3", "wclone w0 w1", "wdrop w1"]))
+            if r.random() < 0.3:
+                ops += ["up w0 h4", "drop h4"]
+            ops += ["collect"] * r.randrange(2, 4)
+        elif t == "helperfin":
+            # the members of a garbage cycle each own (through an untraced field) a helper whose finalizer upgrades `Weak`s to
+            # the members: the helpers are released by the members' drop glue, i.e. inside the collector's destructor pass
+            scripts[1] = r.choice([["up w0 h4", "up w1 h5"], ["up w1 h5", "up w0 h4"], ["up w0 h4", "drop h4", "up w1 h5"]])
+            kinds[1] = "fin"
+            ops += ["new h0 %s 0 0 0" % sp, "new h1 %s 0 0 0" % sp, "setf h0 f0 h1", "setf h1 f0 h0"]
+            ops += ["new h2 %s 0 1 0" % sp, "movef h0 u0 h2", "new h3 %s 0 1 0" % sp, "movef h1 u0 h3"]
+            ops += ["down h0 w0", "down h1 w1"]
+            order = ["drop h0", "drop h1"]
+            r.shuffle(order)
+            ops += order + ["collect"] + ["drop h4", "drop h5", "collect"]
         elif t == "downroot":
             # an object that was downgraded once is owned (traced) by a buffered live owner: collections must keep it
             scripts[1] = []
